@@ -89,7 +89,8 @@ Fixpoint wl_steps (H : list N -> list N) (s : wl_state) (ops : list wl_op) : boo
   end.
 
 Inductive tw_op :=
-| TExec (now sender : N) (m : tw_msg) (ok : bool) (roots_after : list (list N))
+(* ids_after: the stage identities in stored order after the step (raw CONFIG names) *)
+| TExec (now sender : N) (m : tw_msg) (ok : bool) (roots_after : list (list N)) (ids_after : list N)
 | TUnknown (now sender : N) (ok : bool) (roots_after : list (list N))
 | TMigrate (by_admin name_ok : bool) (ver : option version) (ok : bool) (roots_after : list (list N))
 | TQuery (now : N) (member : list N) (proof : list (list N)) (out : result bool).
@@ -97,10 +98,12 @@ Inductive tw_op :=
 Fixpoint tw_steps (H : list N -> list N) (s : tw_state) (ops : list tw_op) : bool :=
   match ops with
   | [] => true
-  | TExec now sender m ok roots_after :: r =>
+  | TExec now sender m ok roots_after ids_after :: r =>
       match tw_execute now sender m s with
-      | Ok s' => ok && list_eqb str_eqb (tw_roots s') roots_after && tw_steps H s' r
-      | Err => negb ok && list_eqb str_eqb (tw_roots s) roots_after && tw_steps H s r
+      | Ok s' => ok && list_eqb str_eqb (tw_roots s') roots_after &&
+                 list_eqb N.eqb (map st_id (tw_stages s')) ids_after && tw_steps H s' r
+      | Err => negb ok && list_eqb str_eqb (tw_roots s) roots_after &&
+               list_eqb N.eqb (map st_id (tw_stages s)) ids_after && tw_steps H s r
       end
   | TUnknown _ _ ok roots_after :: r => negb ok && list_eqb str_eqb (tw_roots s) roots_after && tw_steps H s r
   | TMigrate a n v ok roots_after :: r =>
